@@ -1,4 +1,5 @@
 //! usim — deterministic simulator with fault injection for umya-spreadsheet.
+mod c12;
 mod c13;
 #[cfg(umya_verif_sched)]
 mod c16;
